@@ -36,9 +36,16 @@ Definition polfound := (string * string * bool)%type.
 Definition pol_found (pf : list polfound) (k : string) : bool :=
   existsb (fun e => match e with (ns, name, f) => f && String.eqb (key ns name) k end) pf.
 
-Definition rev_reaches (pf : list polfound) (r : rev) : bool :=
+(* for an APDosPolicy / APDosLogConf [rv_via] holds the keys of the DosProtectedResources that
+   GetDosProtectedThatReferencedDosPolicy / ...DosLogConf returned; such a resource is found when
+   FindResourcesForAppProtectDosProtected returned the served resource for it ([rv_direct] of its own entry) *)
+Definition dos_found (revs : list rev) (k : string) : bool :=
+  existsb (fun r => kind_eqb (rv_kind r) KDos && String.eqb (key (rv_ns r) (rv_name r)) k && rv_direct r) revs.
+
+Definition rev_reaches (revs : list rev) (pf : list polfound) (r : rev) : bool :=
   match rv_kind r with
   | KEndpoints => rv_direct r && rv_req r
+  | KDosPolicy | KDosLogConf => existsb (dos_found revs) (rv_via r)
   | _ => rv_direct r || existsb (pol_found pf) (rv_via r)
   end.
 
@@ -46,7 +53,7 @@ Definition rev_reaches (pf : list polfound) (r : rev) : bool :=
    kind and key is mapped back to the resource by the implementation's reverse path *)
 Definition dep_reachable (revs : list rev) (pf : list polfound) (d : dep) : bool :=
   existsb (fun r => kind_eqb (rv_kind r) (fst d) && String.eqb (key (rv_ns r) (rv_name r)) (snd d) &&
-                    rev_reaches pf r) revs.
+                    rev_reaches revs pf r) revs.
 
 Definition spec_ok (deps : list dep) (revs : list rev) (pf : list polfound) : bool :=
   forallb (dep_reachable revs pf) deps.
@@ -72,10 +79,19 @@ Definition x_deps_in_model (e : env) (cl : cluster) (r : resource) (deps : list 
 (* (2) the model lists nothing the implementation did not look up (DoS look-ups cannot be recorded --
    appprotectdos.Configuration is a concrete type -- so there the observed dependencies are used) *)
 Definition x_model_in_lookups (e : env) (cl : cluster) (r : resource) (deps lookups : list dep) (revs : list rev) : bool :=
+  let md := model_deps e cl r in
+  (* a DosProtectedResource with an unusable APDosPolicy / APDosLogConf yields no DosEx whatever else changes, so
+     single-object mutations cannot show the other links of its chain: compare the DoS chain only when every
+     referenced DosProtectedResource has all its references usable *)
+  let clean := forallb (fun d => match fst d with
+                                 | KDos => match lookup_dos cl (snd d) with
+                                           | Some p => forallb (ap_ok cl) (dos_hop_items p)
+                                           | None => true end
+                                 | _ => true end) md in
   forallb (fun d => match fst d with
-                    | KDos => negb (in_universe revs d) || mem_dep d deps
+                    | KDos | KDosPolicy | KDosLogConf => negb clean || negb (in_universe revs d) || mem_dep d deps
                     | _ => mem_dep d lookups
-                    end) (model_deps e cl r).
+                    end) md.
 
 Definition model_direct (e : env) (k : kind) (ns name : string) (r : resource) : bool :=
   match k with
@@ -85,12 +101,14 @@ Definition model_direct (e : env) (k : kind) (ns name : string) (r : resource) :
   | KApPolicy => finds (ap_checker i_ap_policy) ns name r
   | KApLogConf => finds (ap_checker i_ap_logconf) ns name r
   | KDos => finds dos_checker ns name r
+  | KDosPolicy | KDosLogConf => false
   end.
 
 Definition model_via (cl : cluster) (k : kind) (ns name : string) : list string :=
   match k with
   | KSecret => map policy_key (policies_for_secret cl ns name)
   | KApPolicy | KApLogConf => map policy_key (waf_policies_for cl k (key ns name))
+  | KDosPolicy | KDosLogConf => map dos_key (dos_referencing cl k (key ns name))
   | _ => []
   end.
 
@@ -110,13 +128,14 @@ Definition x_pols (r : resource) (pf : list polfound) : bool :=
 
 (* (5) composition: the model's [reaches] equals the composition S uses, object by object *)
 Definition x_reaches (e : env) (cl : cluster) (r : resource) (revs : list rev) (pf : list polfound) : bool :=
-  forallb (fun v => Bool.eqb (reaches e cl (rv_kind v) (rv_ns v) (rv_name v) r) (rev_reaches pf v)) revs.
+  forallb (fun v => Bool.eqb (reaches e cl (rv_kind v) (rv_ns v) (rv_name v) r) (rev_reaches revs pf v)) revs.
 
 (* (6) the hypotheses of the theorems hold of what was observed *)
 Definition valid_nameb' (s : string) : bool := negb (contains slash s) && negb (contains comma s).
 Definition x_wf (cl : cluster) (r : resource) (revs : list rev) : bool :=
   resource_wfb r &&
   forallb (fun p => valid_nameb' (p_ns p) && valid_nameb' (p_name p)) (cl_policies cl) &&
+  forallb (fun d => valid_nameb' (d_ns d) && valid_nameb' (d_name d)) (cl_dos cl) &&
   forallb (fun v => valid_nameb' (rv_ns v) && valid_nameb' (rv_name v)) revs.
 
 (* one notification delivered through the real handler and the real lbc.sync *)
